@@ -1072,11 +1072,23 @@ fn emit_family(prop: &str, seed: u64, quick: bool, out: &mut Vec<Fail>) -> usize
         if prop == "C19" {
             for (what, key, a, b) in emit_corpus::unrelated_pairs() {
                 n += 1;
+                // each side is built several times (every build has its own HashMap iteration order, i.e. its own order of writing the
+                // modules) and emitted on a fresh thread, so that state the printer keeps between modules or between calls (a memo, a
+                // thread-local) shows as a difference instead of being shared by both sides
+                for _rep in 0..4 {
                 if let (Outcome::Ok(sa), Outcome::Ok(sb)) = (build_modules(&a, ptr), build_modules(&b, ptr)) {
-                    let (ea, eb) = (emit_checked(ptr, &sa, &a, &dir), emit_checked(ptr, &sb, &b, &dir));
+                    let (ea, eb) = std::thread::scope(|sc| {
+                        let ha = sc.spawn(|| emit_checked(ptr, &sa, &a, &dir.join("a")));
+                        let ea = ha.join();
+                        let hb = sc.spawn(|| emit_checked(ptr, &sb, &b, &dir.join("b")));
+                        (ea, hb.join())
+                    });
+                    let (Ok(ea), Ok(eb)) = (ea, eb) else { continue };
                     if ea.files.get(key) != eb.files.get(key) || ea.files.get(key).is_none() {
                         out.push(Fail { family: "emit", input: format!("{}\n// ==== changed input set ({what}); observed module `{key}`\n{}", join_sources(&a), join_sources(&b)), ptr, expected: format!("output of module `{key}` byte-identical"), actual: first_diff(ea.files.get(key), eb.files.get(key)) });
                     }
+                }
+                if out.len() > 30 { break; }
                 }
             }
         }
@@ -1181,14 +1193,22 @@ fn fs_family(prop: &str, out: &mut Vec<Fail>) -> usize {
     // ---- a second build into an output directory that already holds the result of an earlier one (C05 C14): after an input
     // changed, every output file must be what a build into an empty directory gives - also the files of modules whose own
     // source did not change but which re-expose something of the changed module
-    if ["C05", "C14", "C07"].contains(&prop) {
+    if EMIT_PROPS.contains(&prop) && prop != "C12" {
         let base = root.join("rebuild");
         let _ = std::fs::remove_dir_all(&base);
         let ind = base.join("types");
         let _ = std::fs::create_dir_all(&ind);
-        let base_src = |addr: &str| format!("pub type Base {{ pub x: u32 }}\nimpl Base {{\n    #[address({addr})]\n    pub fn make(a: u32) -> u32;\n    #[address(0x500)]\n    pub fn get(&self) -> u32;\n}}\n");
+        // the edit changes an address (C05 / C07), the size and layout of Base (C01 / C02 of what embeds it), a convention (C16), a doc
+        // (C17), an enum value (C08), and it adds a type `Extra` to base.pyxis that shadows the one `derived` got from `other` (C11)
+        let base_src = |addr: &str| {
+            let second = addr != "0x401000";
+            format!("/// {}\n#[align(4)]\npub type Base {{ pub x: u32{} }}\nimpl Base {{\n    #[address({addr})]\n    pub fn make(a: u32) -> u32;\n    #[address(0x500){}]\n    pub fn get(&self) -> u32;\n}}\npub enum Kind: u32 {{ A = {}, B }}\n{}",
+                if second { "second edition" } else { "first edition" }, if second { ", pub z: u32" } else { "" }, if second { ", calling_convention(\"cdecl\")" } else { "" },
+                if second { 7 } else { 1 }, if second { "pub type Extra { pub e: u64 }\n" } else { "" })
+        };
         let _ = std::fs::write(ind.join("base.pyxis"), base_src("0x401000"));
-        let _ = std::fs::write(ind.join("derived.pyxis"), "use base::Base;\npub type Derived { #[base] pub base: Base, pub y: u32 }\n");
+        let _ = std::fs::write(ind.join("other.pyxis"), "pub type Extra { pub e: u32 }\n");
+        let _ = std::fs::write(ind.join("derived.pyxis"), "use base;\nuse other;\n#[align(4)]\npub type Derived { #[base] pub base: Base, pub y: u32, pub k: Kind }\npub type UsesExtra { pub p: *const Extra }\n");
         let out1 = base.join("out");
         let fresh = base.join("fresh");
         let r1 = catch_unwind(AssertUnwindSafe(|| pyxis::build(&ind, &out1, 8)));
@@ -1201,7 +1221,7 @@ fn fs_family(prop: &str, out: &mut Vec<Fail>) -> usize {
         let input = "types/base.pyxis (impl Base { #[address(A)] pub fn make(a: u32) -> u32; .. }), types/derived.pyxis (Derived { #[base] base: Base }): build, change A from 0x401000 to 0x402000, build again into the same directory".to_string();
         match (r1, r2, r3) {
             (Ok(Ok(())), Ok(Ok(())), Ok(Ok(()))) => {
-                for f in ["base.rs", "derived.rs"] {
+                for f in ["base.rs", "derived.rs", "other.rs"] {
                     let a = std::fs::read_to_string(out1.join(f)).ok();
                     let b = std::fs::read_to_string(fresh.join(f)).ok();
                     if a != b || a.is_none() {
@@ -1271,13 +1291,54 @@ fn mutation_family(seed: u64, quick: bool, out: &mut Vec<Fail>) -> usize {
     n
 }
 
+// ------------------------------------------------------------------------------------------------ backend blocks that are not Rust (C12)
+/// a `backend rust` prologue / epilogue that is not valid Rust makes `write_module` report an error (the text is emitted as it is and
+/// the parse error is quoted with its position): an error value, never a panic - also with non-ASCII text and very long lines
+fn bad_backend_family(out: &mut Vec<Fail>) -> usize {
+    let long_ascii = "x".repeat(300);
+    let long_cyr = "Ж".repeat(120);
+    let long_jp = "型".repeat(90);
+    let blocks: Vec<String> = vec![
+        "fn ( {".into(),
+        format!("const A: u32 = {long_ascii} {long_ascii} );"),
+        format!("const Ж{long_cyr}: = \"{long_cyr}\" ;; }}"),
+        format!("// ok\nlet {long_jp} = 「{long_jp}」 {long_jp} ;"),
+        format!("/* {long_cyr} */ struct {{ {long_jp} }} {long_ascii}é{long_ascii} )"),
+        "\u{1F600} \u{1F600} fn".into(),
+    ];
+    let mut n = 0;
+    let dir = scratch_dir().join("badbackend");
+    for b in &blocks {
+        for kind in ["prologue", "epilogue"] {
+            let src = format!("backend rust {kind} r#\"\n{b}\n\"#;\npub type T {{ pub a: u32 }}\n");
+            let mods = vec![("m", src.clone())];
+            n += 1;
+            match build_modules(&mods, 8) {
+                Outcome::Ok(st) => {
+                    let _ = std::fs::remove_dir_all(&dir);
+                    let _ = std::fs::create_dir_all(&dir);
+                    for (key, module) in st.modules() {
+                        let r = catch_unwind(AssertUnwindSafe(|| pyxis::backends::rust::write_module(&dir, key, &st, module)));
+                        if r.is_err() { out.push(Fail { family: "bad-backend", input: src.clone(), ptr: 8, expected: "write_module returns Ok or Err".into(), actual: "PANIC in write_module".into() }); }
+                    }
+                }
+                Outcome::Panic(m) => out.push(Fail { family: "bad-backend", input: src.clone(), ptr: 8, expected: "Ok or Err".into(), actual: format!("PANIC({m})") }),
+                Outcome::Err(_) => {}
+            }
+        }
+    }
+    let _ = std::fs::remove_dir_all(&dir);
+    n
+}
+
 fn run_family(prop: &str, seed: u64, quick: bool, out: &mut Vec<Fail>) -> usize {
     let mut n = 0;
     // hangs and panics first: once a few inputs are known to hang there is no point in paying ten seconds each for more
     if ["C12", "C03"].contains(&prop) && shard_family(0) { n += absurd_family(out); }
     if prop == "C12" && out.len() >= 3 { return n; }
-    if ["C14", "C12", "C15", "C05", "C07"].contains(&prop) && shard_family(1) { n += fs_family(prop, out); }
+    if (EMIT_PROPS.contains(&prop) || prop == "C12") && shard_family(1) { n += fs_family(prop, out); }
     if prop == "C12" && shard_family(2) { n += mutation_family(seed, quick, out); }
+    if prop == "C12" && shard_family(3) { n += bad_backend_family(out); }
     if prop == "C12" && out.len() >= 3 { return n; }
     if EMIT_PROPS.contains(&prop) {
         // the backend check also runs on every k-th input the other families find accepted
